@@ -317,6 +317,23 @@ class FiniteEval:
                 self.actions.append(('inc', name, v[2] - env[name][2]))
             env[name] = v
             return
+        def last_of_list(t):
+            return isinstance(t, ast.Subscript) and isinstance(t.value, ast.Name) and t.value.id in self.lists and isinstance(t.slice, ast.UnaryOp) \
+                and isinstance(t.slice.op, ast.USub) and isinstance(t.slice.operand, ast.Constant) and t.slice.operand.value == 1
+        if isinstance(s, ast.AugAssign) and isinstance(s.op, ast.Add) and last_of_list(s.target):
+            # out[-1] += ')' : a decoration added to the token emitted last
+            v = self.ev(s.value, env)
+            if not isinstance(v, str):
+                raise Unknown('last token extended by %r' % (v,))
+            self.actions.append(('suffix_last', s.target.value.id, v))
+            return
+        if isinstance(s, ast.Assign) and len(s.targets) == 1 and last_of_list(s.targets[0]) and isinstance(s.value, ast.BinOp) and isinstance(s.value.op, ast.Add) \
+                and last_of_list(s.value.left) and s.value.left.value.id == s.targets[0].value.id:
+            v = self.ev(s.value.right, env)
+            if not isinstance(v, str):
+                raise Unknown('last token extended by %r' % (v,))
+            self.actions.append(('suffix_last', s.targets[0].value.id, v))
+            return
         if isinstance(s, ast.AugAssign) and isinstance(s.target, ast.Name):
             name = s.target.id
             cur = env.get(name)
